@@ -647,6 +647,17 @@ def spawn_layer_in_subprocess(result, script_parts, options, features,
             failures.extend(child_failures)
             errors.extend(child_errors)
 
+    except Exception as e:
+        # This function usually is the target of a thread: an exception
+        # leaving it would only end that thread and the layer would go
+        # missing without anybody noticing.
+        result.num_ran = 0
+        entry = ("subprocess for %s" % layer_name, None)
+        if entry not in errors:
+            errors.append(entry)
+        output.error_with_banner(
+            "Could not run %s in a subprocess: %r" % (layer_name, e))
+
     finally:
         result.done = True
         if child is not None:
